@@ -81,3 +81,28 @@ Proof.
   unfold merkle_value, Gen.hash_length.
   destruct (Nat.ltb_spec (length e) 32), (Z.ltb_spec (Z.of_nat (length e)) 32); try lia; reflexivity.
 Qed.
+
+(* maxPartialKeyLength = ^uint16(0) of pkg/trie/node and pkg/trie/triedb/codec: the bound of the
+   round-trip theorems, of wf_node, and (plus one) the modulus of the uint16 accumulator of decodeHeader *)
+Example gen_max_partial_key_length :
+  Gen.max_partial_key_length = 65535%Z /\ Gen.codec_max_partial_key_length = 65535%Z.
+Proof. split; reflexivity. Qed.
+Lemma header_roundtrip_gen v l rest :
+  node_variant v = true -> (Z.of_N l <= Gen.max_partial_key_length)%Z ->
+  decode_header (encode_header v l ++ rest) = Ok (v, l, rest).
+Proof. intros Hv Hl. apply decode_header_encode; [assumption|]. unfold Gen.max_partial_key_length in Hl. lia. Qed.
+Example gen_wf_node_key_bound pk sv mbh cs :
+  wf_node (TN pk sv mbh cs) = true -> (Z.of_N (lenN pk) <= Gen.max_partial_key_length)%Z.
+Proof.
+  intro W. destruct (wf_unfold blake2b_256 blake2b_256_length _ _ _ _ W) as (_ & Hl & _).
+  unfold Gen.max_partial_key_length. lia.
+Qed.
+Example gen_pklen_wraps_at_uint16 r acc :
+  dec_pklen r acc = match r with
+                    | [] => Err E_EOF
+                    | b :: r' =>
+                      let acc' := (acc + b2n b) mod (Z.to_N Gen.max_partial_key_length + 1) in
+                      if acc' <? acc then Err E_KEYBIG
+                      else if b2n b <? 255 then Ok (acc', r') else dec_pklen r' acc'
+                    end.
+Proof. destruct r; reflexivity. Qed.
